@@ -490,3 +490,78 @@ Proof.
 Qed.
 
 End History.
+
+(* ---------- `all_fit`, stated on the implementation's own states ---------- *)
+(* `all_fit` speaks about the specification's element counts.  The same condition on the states
+   the IMPLEMENTATION passes through: before every operation the stored Vec has at most
+   usize::MAX elements — which holds in every execution that exists, a Vec<T> of a sized,
+   non-zero-sized T holding at most isize::MAX bytes. *)
+Section ImplFit.
+Context {T : Type}.
+
+Fixpoint impl_all_fit (s : matrix T) (ops : list (op T)) : Prop :=
+  match ops with
+  | [] => True
+  | o :: rest => nlen (m_data s) <= usize_max /\ impl_all_fit (fst (impl_step s o)) rest
+  end.
+
+Lemma fits_abs (s : matrix T) : Inv s -> (fits (abs s) <-> nlen (m_data s) <= usize_max).
+Proof.
+  intros Hinv. destruct (iteration_orders s Hinv) as [_ [_ E]]. unfold fits. rewrite <- E. tauto.
+Qed.
+
+Lemma abs_step (s : matrix T) (o : op T) : Inv s -> fits (abs s) ->
+  abs (fst (impl_step s o)) = fst (spec_step (abs s) o).
+Proof.
+  intros Hinv Hf. destruct (abs_of_inv s Hinv) as [Hr Hs].
+  destruct (step_refines (abs s) o Hr Hf) as [Hstep Hr']. rewrite Hs in Hstep. rewrite Hstep.
+  cbn [fst]. apply of_rows_abs. exact Hr'.
+Qed.
+
+Theorem all_fit_iff_impl (ops : list (op T)) : forall s : matrix T, Inv s ->
+  (all_fit (abs s) ops <-> impl_all_fit s ops).
+Proof.
+  induction ops as [|o ops IH]; intros s Hinv; [cbn; tauto|].
+  cbn [all_fit impl_all_fit]. pose proof (fits_abs s Hinv) as Hfa.
+  pose proof (step_inv s o Hinv) as Hinv'. specialize (IH _ Hinv'). split.
+  - intros [Hf Hrest]. split; [apply Hfa; exact Hf|]. apply IH. rewrite (abs_step s o Hinv Hf). exact Hrest.
+  - intros [Hl Hrest]. assert (Hf : fits (abs s)) by (apply Hfa; exact Hl). split; [exact Hf|].
+    rewrite <- (abs_step s o Hinv Hf). apply IH. exact Hrest.
+Qed.
+
+(* every state of the trace is an allocated Vec (at most isize::MAX elements) => all_fit *)
+Definition isize_max : N := 9223372036854775807.
+
+Lemma impl_all_fit_of_states (ops : list (op T)) : forall s : matrix T,
+  Forall (fun st => nlen (m_data st) <= isize_max) (s :: map fst (impl_trace s ops)) ->
+  impl_all_fit s ops.
+Proof.
+  induction ops as [|o ops IH]; intros s H; [exact I|].
+  cbn [impl_trace map] in H. inversion H as [|? ? H0 Hrest]; subst.
+  cbn [impl_all_fit]. split; [unfold isize_max, usize_max in *; lia|]. apply IH. exact Hrest.
+Qed.
+
+Theorem history_refines_allocated (s : matrix T) (ops : list (op T)) :
+  Inv s -> Forall (fun st => nlen (m_data st) <= isize_max) (s :: map fst (impl_trace s ops)) ->
+  map abs_result (impl_trace s ops) = spec_trace (abs s) ops
+  /\ Forall (fun r => Inv (fst r)) (impl_trace s ops).
+Proof.
+  intros Hinv Hall. apply history_refines; [exact Hinv|].
+  apply all_fit_iff_impl; [exact Hinv|]. apply impl_all_fit_of_states. exact Hall.
+Qed.
+
+(* one step from an allocated state: no size hypothesis left *)
+Theorem panics_iff_allocated (s : matrix T) (o : op T) : Inv s -> nlen (m_data s) <= isize_max ->
+  (snd (impl_step s o) = false <-> precondition_fails (abs s) o)
+  /\ (snd (impl_step s o) = false -> fst (impl_step s o) = s)
+  /\ abs (fst (impl_step s o)) = fst (spec_step (abs s) o)
+  /\ snd (impl_step s o) = snd (spec_step (abs s) o).
+Proof.
+  intros Hinv Hl. assert (Hf : fits (abs s)) by (apply fits_abs; [exact Hinv|unfold isize_max, usize_max in *; lia]).
+  destruct (panics_iff s o Hinv Hf) as [H1 H2]. split; [exact H1|]. split; [exact H2|].
+  split; [apply abs_step; assumption|].
+  destruct (abs_of_inv s Hinv) as [Hr Hs].
+  destruct (step_refines (abs s) o Hr Hf) as [Hstep _]. rewrite Hs in Hstep. now rewrite Hstep.
+Qed.
+
+End ImplFit.
